@@ -177,3 +177,20 @@ CHECKS["C06"] = dict(
               "closer-stepped-while-sender-at:send.afterWritev", "queue:1", "queue:2", "queue:>2"],
     assumptions=_E1_ASSUME + ["Close's 100 ms poll sleep is real time (add-only hooks cannot remove it); cases that overlap Close with a running sender are budgeted by count"],
 )
+
+CHECKS["C11"] = dict(
+    test="TestC11", level="exploration",
+    quick=dict(shards=16, checks=500, timeout=400),
+    thorough=dict(shards=16, checks=80000, timeout=3400, shrinktime="120s"),
+    rule="cooperative-scheduler cases: channel kind (sync, queued blocking/non-blocking, queue 1-8) x who closed (user Close with nil / "
+         "sentinel / wrapped / io.EOF / net.Error argument; the read loop after parent-context cancellation, i.e. Close(nil); the tail "
+         "handler after peer EOF or a read failure; the sender after an injected Writev failure) x optional traffic before and "
+         "overlapping the close x a writer task that is enabled only once the Close that took effect has returned and then issues 4-12 "
+         "calls (repeated because the outcome of select is a runtime choice) over all seven write entry points with background, live and "
+         "cancelled caller contexts. Oracle: each such call returns a non-nil error, reports n == 0, none of its bytes are in the "
+         "transport stream, and the transport accepts nothing after its Close. Non-trivial = queued channel (enqueue arm of the select "
+         "ready) or nil Close argument. Distinct by case hash.",
+    required=["after-close:write:", "after-close:write1:", "after-close:writev:", "after-close:ctxwrite1:", "after-close:ctxwritev:",
+              "after-close:readfrom:", "after-close:writerwrite:", "close-arg-nil:true", "close-arg-nil:false", "kind:sync", "kind:qblock", "kind:qnonblock"],
+    assumptions=_E1_ASSUME + ["'Close has returned' is observed as: inactive delivered and no task inside Close any more"],
+)
